@@ -84,6 +84,7 @@ fn gen(rng: &mut Rng, idx: u64, _tier: Tier) -> Case {
     if rng.chance(0.15) { for k in [11u32, 17, 18, 4] { if rng.chance(0.8) { args.push(format!("--filter={}", k)); } } }
     if rng.chance(0.15) { args.push(format!("--log-messages={}", rng.pick(&[11u32, 17, 18]))); }
     if rng.chance(0.1) { args.push("--downlink-log=/dev/null".into()); }
+    gen::add_neutral_options(rng, &mut args, false, false);
     let n = rng.range(4, 36) as usize;
     let kinds = [Kind::Df11, Kind::Ident, Kind::AirPos, Kind::AirPos, Kind::Vel12, Kind::Df4, Kind::Df5, Kind::Df0, Kind::SurfPos, Kind::Tc31, Kind::Df18, Kind::Df20(gen::Reg::B20), Kind::Df21(gen::Reg::B50), Kind::Gnss];
     let mut lines: Vec<(i64, Vec<u8>, String)> = vec![];
